@@ -223,8 +223,8 @@ def main():
         }, {
             "name": "growth", "path": "/verif/bin/growth",
             "serves_properties": [],
-            "kind_free_text": "specifications beyond the listed properties (bin/growth session|cron [quick|thorough]): Session.tla + SessionCheck.tla "
-                              "(TCPCLv4 session life cycle and keep-alive timing, bound to a real StageHandler), Cron.tla (bound to a real Cron); "
+            "kind_free_text": "specifications beyond the listed properties (bin/growth session|cron|reports|discovery [quick|thorough]): Session.tla + SessionCheck.tla "
+                              "(TCPCLv4 session life cycle and keep-alive timing, bound to a real StageHandler), Cron.tla (bound to a real Cron), Discovery.tla (bound to a real discovery.Manager); "
                               "divergences are printed as DIVERGENCE growth=<name>, results under /verif/growth/",
         }],
         "checks": checks,
